@@ -32,6 +32,8 @@ UNDEF = Undef()
 
 FEAS_TIMEOUT_MS = 2000
 
+import itertools as _it
+_FRESH = _it.count(1)
 _RAT = {}
 def rationalise(f):
     """Real-mode reading of a double literal: if it is the nearest double to a rational p/q with q <= 1000
@@ -73,6 +75,9 @@ class Interp:
         s.cur_exn = None
         s.fptosi_log = []
         s.table_loads = []
+        s.round_log = []
+        s.watch = {}
+        s.events = []
         s._mcache = {}
         s.models_used = set()
         s.funcs_run = set()
@@ -124,6 +129,8 @@ class Interp:
         s.nobj += 1; s.objs[s.nobj] = Obj(size, name); return Ptr(s.nobj, 0)
     def store(s, ptr, v, size):
         if not isinstance(ptr, Ptr) or ptr.obj == 0: raise Unsupported('store to %r' % (ptr,))
+        if s.watch and (ptr.obj, ptr.off) in s.watch:
+            s.watch[(ptr.obj, ptr.off)]('store', s, ptr, size, v)
         o = s.objs[ptr.obj]
         if ptr.off < 0 or ptr.off + size > o.size: raise Unsupported('OOB store %r size %d objsize %d (%s)' % (ptr, size, o.size, o.name))
         # remove overlapping cells
@@ -149,6 +156,9 @@ class Interp:
             s.table_loads.append((o.name, len(vals)))
             return e
         if not isinstance(ptr, Ptr) or ptr.obj == 0: raise Unsupported('load from %r' % (ptr,))
+        if s.watch and (ptr.obj, ptr.off) in s.watch:
+            r = s.watch[(ptr.obj, ptr.off)]('load', s, ptr, size, None)
+            if r is not None: return r[0]
         o = s.objs[ptr.obj]
         if ptr.off < 0 or ptr.off + size > o.size: raise Unsupported('OOB load %r size %d objsize %d (%s)' % (ptr, size, o.size, o.name))
         c = o.cells.get(ptr.off)
@@ -316,7 +326,8 @@ class Interp:
         s.assume(cond if d else z3.Not(cond))
         return d
     def newsym(s, prefix, sort='real'):
-        s.fresh += 1
+        # globally unique across interpreter instances: obligations routinely combine the path conditions of several runs
+        s.fresh = next(_FRESH)
         n = '%s!%d' % (prefix, s.fresh)
         return z3.Real(n) if sort == 'real' else z3.Int(n)
     # ----- arithmetic helpers -----
@@ -692,6 +703,7 @@ class Interp:
                 if kind == 'floor': s.assume(z3.And(kr <= x, x < kr + 1))
                 elif kind == 'round': s.assume(z3.If(x >= 0, z3.And(kr <= x + 0.5, x + 0.5 < kr + 1), z3.And(kr - 1 < x - 0.5, x - 0.5 <= kr)))
                 else: raise Unsupported(n)
+                s.round_log.append((kind, k, x))
                 return kr
             if s.fpmode == 'float':
                 if math.isinf(x) or math.isnan(x): return x
